@@ -293,12 +293,18 @@ VARIABLES content,   \* key id -> value id, 0 = absent   (the abstract content)
                      \* generator visit every content / cache state once per provenance,
                      \* because the code paths that materialise a node differ.
 
-vars == <<content, tree, limit, prov>>
+VARIABLE dbst         \* the NodeDatabase memory layer: "empty" (nothing inserted since it was created),
+                      \* "cached" (commits inserted nodes), "partly" (NodeDatabase.Cap flushed the older
+                      \* part to disk), "flushed" (Cap(0): everything went to disk).  Like prov it never
+                      \* influences a result of the reference: Cap may not change what any version reads.
+
+vars == <<content, tree, limit, prov, dbst>>
 
 Init == /\ content = [k \in KeyIds |-> 0]
         /\ tree = Nil
         /\ limit = 0
         /\ prov = "built"
+        /\ dbst = "empty"
 
 KeepProv == prov' = IF tree' = Nil THEN "built" ELSE prov
 
@@ -306,17 +312,17 @@ Update(k, v) ==
   /\ content' = [content EXCEPT ![k] = v]
   /\ tree' = UpdateTree(tree, k, v)
   /\ KeepProv
-  /\ UNCHANGED limit
+  /\ UNCHANGED <<limit, dbst>>
 
 Del(k) ==
   /\ content' = [content EXCEPT ![k] = 0]
   /\ tree' = Delete(tree, k)
   /\ KeepProv
-  /\ UNCHANGED limit
+  /\ UNCHANGED <<limit, dbst>>
 
 Get(k) ==
   /\ tree' = LookupR(tree, PathOf(k))[2]
-  /\ UNCHANGED <<content, limit, prov>>
+  /\ UNCHANGED <<content, limit, prov, dbst>>
 
 HashOnly == UNCHANGED vars          \* caches digests in the flags, nothing else
 
@@ -329,6 +335,7 @@ Commit ==
              ELSE IF prov = "built" THEN "clean"               \* first commit: same objects, now clean
              ELSE IF prov = "clean" /\ limit = 0 THEN "mem"    \* clean nodes are unloaded, come back from the db
              ELSE prov
+  /\ dbst' = IF tree = Nil THEN dbst ELSE "cached"
   /\ UNCHANGED <<content, limit>>
 
 (* NewTrie(root, db): the root is resolved, everything below it by need *)
@@ -336,11 +343,19 @@ Reopen(from) ==
   /\ tree' = Collapsed(tree)
   /\ limit' = 0
   /\ prov' = IF tree = Nil THEN "built" ELSE from
+  /\ dbst' = IF from = "disk" THEN "empty" ELSE IF tree = Nil THEN dbst ELSE "cached"
   /\ UNCHANGED content
 
 SetLimit(l) ==
   /\ limit' = l
-  /\ UNCHANGED <<content, tree, prov>>
+  /\ UNCHANGED <<content, tree, prov, dbst>>
+
+(* NodeDatabase.Cap(limit): flush the oldest cached nodes to disk until the memory layer is   *)
+(* below the limit (how = 0: everything; 1, 2: the older half / quarter) and drop them from  *)
+(* memory.  No version may read differently afterwards.                                      *)
+Cap(how) ==
+  /\ dbst' = IF dbst \in {"cached", "partly"} THEN (IF how = 0 THEN "flushed" ELSE "partly") ELSE dbst
+  /\ UNCHANGED <<content, tree, limit, prov>>
 
 Next ==
   \/ \E k \in KeyIds, v \in ValIds \cup {0} : Update(k, v)
@@ -348,6 +363,7 @@ Next ==
   \/ \E k \in KeyIds : Get(k)
   \/ HashOnly \/ Commit \/ Reopen("mem") \/ Reopen("disk")
   \/ \E l \in {0, 2} : SetLimit(l)
+  \/ \E how \in {0, 1, 2} : Cap(how)
 
 Spec == Init /\ [][Next]_vars
 
@@ -377,4 +393,5 @@ InvMinimal == Minimal(Expand(tree))
 TypeOK == /\ content \in [KeyIds -> ValIds \cup {0}]
           /\ limit \in {0, 2}
           /\ prov \in {"built", "clean", "mem", "disk"}
+          /\ dbst \in {"empty", "cached", "partly", "flushed"}
 =============================================================================
